@@ -141,6 +141,11 @@ func main() {
 	os.Exit(check(p, repo, tier, seed))
 }
 
+// runTag names this invocation's scratch directories under work/.
+var runTag = fmt.Sprintf("run.%d", os.Getpid())
+
+func journalDir() string { return filepath.Join(workDir, "journal", runTag) }
+
 func binPath(p *prop, race bool, repo string) string {
 	name := strings.ToLower(p.ID)
 	if race {
@@ -192,7 +197,7 @@ func runProc(p *prop, bin string, name string, args []string, extraEnv []string,
 	os.MkdirAll(cwd, 0o755)
 	cmd.Dir = cwd
 	cmd.Env = append(env(repo), extraEnv...)
-	cmd.Env = append(cmd.Env, "VERIF_STATS="+statsFile)
+	cmd.Env = append(cmd.Env, "VERIF_STATS="+statsFile, "VERIF_JOURNAL="+journalDir())
 	if repo != "/repo" && !hasEnv(extraEnv, "VERIF_REPLAY_DIR") {
 		cmd.Env = append(cmd.Env, "VERIF_REPLAY_DIR="+filepath.Join(workDir, "alt-replays", p.ID))
 	}
@@ -349,9 +354,14 @@ func check(p *prop, repo, tier string, seed int64) int {
 		return 2
 	}
 
-	statsDir := filepath.Join(workDir, "stats", p.ID)
+	// Per-invocation scratch (several checks of one property may run at the same time:
+	// quick on the real tree, a mutant run, a thorough run).
+	runTag = fmt.Sprintf("%s.%d", p.ID, os.Getpid())
+	statsDir := filepath.Join(workDir, "stats", runTag)
 	os.RemoveAll(statsDir)
 	os.MkdirAll(statsDir, 0o755)
+	defer os.RemoveAll(statsDir)
+	defer os.RemoveAll(journalDir())
 	// Stale replays of this property are removed so a reported path is always from this run.
 	// Runs against a scratch tree (VERIF_REPO) keep their replays apart from the real ones.
 	replayDir := filepath.Join(verifDir, "replays", p.ID)
@@ -359,7 +369,7 @@ func check(p *prop, repo, tier string, seed int64) int {
 		replayDir = filepath.Join(workDir, "alt-replays", p.ID)
 	}
 	os.RemoveAll(replayDir)
-	os.RemoveAll(filepath.Join(workDir, "journal", p.ID))
+	os.RemoveAll(journalDir())
 
 	var results []procResult
 	var rmu sync.Mutex
@@ -583,7 +593,7 @@ func crashJournal(p *prop, r procResult) string {
 	if !strings.Contains(r.out, "panic:") && !strings.Contains(r.out, "fatal error:") {
 		return ""
 	}
-	files, _ := filepath.Glob(filepath.Join(workDir, "journal", p.ID, p.ID+"-*.json"))
+	files, _ := filepath.Glob(filepath.Join(journalDir(), p.ID+"-*.json"))
 	for _, f := range files {
 		b, err := os.ReadFile(f)
 		if err != nil || len(b) == 0 {
